@@ -281,6 +281,39 @@ def flowOnchain (p : Policy) (vc : Velocity.VC) (now : Nat) (r : Req) (approve :
   | (vc', .err t) => (vc', .refused t)
   | (vc', .panic) => (vc', .panic)
 
+/-! ### The approver stack of `vls-protocol-signer/src/approver.rs`, as far as `approve_onchain` goes (round 9)
+
+`handle_proposed_onchain` consults `approve_onchain` only for `UnknownDestinations`; `flowOnchain` takes its answer as a
+Boolean.  This is where that Boolean comes from: the three constant approvers, the two wrappers.  `Tx` is the whole
+transaction (inputs and outputs): a memoized approval is consumed only by **the same** transaction. -/
+
+inductive Memo (Tx : Type)
+  | invoice            -- Approval::Invoice(_)
+  | keysend            -- Approval::KeySend(_, _)
+  | onchain (tx : Tx)  -- Approval::Onchain(tx)
+deriving DecidableEq, Repr
+
+inductive Approver (Tx : Type)
+  | positive | warningPositive | negative
+  | velocity (delegate : Approver Tx)                       -- VelocityApprover: on-chain requests go to the delegate
+  | memo (memos : List (Memo Tx)) (delegate : Approver Tx)  -- MemoApprover
+deriving Repr
+
+/-- is an `Approval::Onchain(tx)` among the memoized approvals? -/
+def memoHit {Tx : Type} [DecidableEq Tx] (memos : List (Memo Tx)) (tx : Tx) : Bool :=
+  memos.any (fun m => match m with | .onchain t => t == tx | _ => false)
+
+/-- `approve_onchain`: the answer and the approver afterwards (`MemoApprover` drains its memo list on every request,
+    hit or miss: `drain(..)` empties the vector even when the iteration is left early) -/
+def Approver.approveOnchain {Tx : Type} [DecidableEq Tx] : Approver Tx → Tx → Approver Tx × Bool
+  | .positive, _ => (.positive, true)
+  | .warningPositive, _ => (.warningPositive, true)
+  | .negative, _ => (.negative, false)
+  | .velocity d, tx => let (d', b) := d.approveOnchain tx; (.velocity d', b)
+  | .memo memos d, tx =>
+    if memoHit memos tx then (.memo [] d, true)
+    else let (d', b) := d.approveOnchain tx; (.memo [] d', b)
+
 /-! ### Specification-level classification (independent of the policy filter) -/
 
 inductive OutClass
